@@ -16,6 +16,7 @@ import (
 	"go/types"
 	"sort"
 	"strings"
+	"sync"
 
 	"golang.org/x/tools/go/ssa"
 )
@@ -333,7 +334,7 @@ func (fl *flattener) runFrom(f *ssa.Function, start *ssa.BasicBlock, bind map[ss
 				}
 				return
 			case *ssa.If:
-				t := ev().eval(in.Cond)
+				t := resolveDerivedFlag(fl.p, ev().eval(in.Cond))
 				switch foldCond(t) {
 				case 1:
 					walk(b.Succs[0], b, env, pc, eff, 0)
@@ -390,4 +391,84 @@ func pathsString(ps []fpath) string {
 		}
 	}
 	return strings.Join(s, " ;; ")
+}
+
+// Derived flags. The record of derived constants (the struct holding ShortMask, filled once by the
+// initialiser under Unmarshal/NewSlimTrie) may cache a test of the loaded message in a bool field
+// ("WithLeafPrefix: ns.LeafPrefixes != nil"). A branch on such a field is a branch on its defining
+// term: the field has exactly one store in the package and the stored value is a comparison.
+var (
+	derivedFlagsOf = map[*Program]map[string]*term{}
+	derivedFlagsMu sync.Mutex
+)
+
+func derivedFlags(p *Program) map[string]*term {
+	derivedFlagsMu.Lock()
+	defer derivedFlagsMu.Unlock()
+	if m, ok := derivedFlagsOf[p]; ok {
+		return m
+	}
+	m := map[string]*term{}
+	count := map[string]int{}
+	for _, f := range p.FuncsOf(triePath) {
+		if f.Synthetic != "" {
+			continue
+		}
+		e := newEval(p)
+		instrsOf(f, func(_ *ssa.BasicBlock, in ssa.Instruction) {
+			st, ok := in.(*ssa.Store)
+			if !ok || !isBoolType(st.Val.Type()) {
+				return
+			}
+			stt, fv, fa := fieldOfAddr(st.Addr)
+			if fa == nil || stt == nil {
+				return
+			}
+			hasMask := false
+			for i := 0; i < stt.NumFields(); i++ {
+				if stt.Field(i).Name() == "ShortMask" {
+					hasMask = true
+				}
+			}
+			if !hasMask {
+				return
+			}
+			count[fv.Name()]++
+			t := e.eval(st.Val)
+			if t.op == "cmp" {
+				m[fv.Name()] = t
+			}
+		})
+	}
+	for n, c := range count {
+		if c != 1 {
+			delete(m, n)
+		}
+	}
+	derivedFlagsOf[p] = m
+	return m
+}
+
+func resolveDerivedFlag(p *Program, t *term) *term {
+	neg := false
+	u := t
+	for u.op == "lnot" && len(u.args) == 1 {
+		u = u.args[0]
+		neg = !neg
+	}
+	if u.op != "sym" {
+		return t
+	}
+	i := strings.LastIndex(u.name, ".")
+	if i < 0 {
+		return t
+	}
+	def, ok := derivedFlags(p)[u.name[i+1:]]
+	if !ok {
+		return t
+	}
+	if neg {
+		return ON("lnot", "", def)
+	}
+	return def
 }
